@@ -127,6 +127,20 @@ def genImp (id : String) (thorough : Bool) : Gen Case := do
 
 /-! ### corpus: witnesses of the repaired defects, always first -/
 
+def mkFirst (i : Nat) (src : String) (v : V) : Case :=
+  { id := s!"C11-first-{i}", cls := "good", kind := "first", stratum := "first-use/std-scope",
+    model := v.canon, spec := v.canon, payload := [s!"C11-first-{i}", "8", src] }
+
+/-- six programs whose concurrent first evaluation in a fresh process initialises the standard-library scope;
+six, so that each of the race tier's harness processes starts with one -/
+def firstUse : List Case :=
+  [ mkFirst 0 "//seq.concat([[1], [2]])" (V.mkArr [.num 1, .num 2]),
+    mkFirst 1 "//str.upper('ab')" (V.mkStr [65, 66]),
+    mkFirst 2 "//math.pi > 3" (V.bool true),
+    mkFirst 3 "//tuple({'a': 1})" (V.mkTup [("a", .num 1)]),
+    mkFirst 4 "//rel.union({{1}, {2}})" (V.mkSet [.num 1, .num 2]),
+    mkFirst 5 "//seq.join(',', ['a', 'b'])" (V.mkStr [97, 44, 98]) ]
+
 def corpus : Gen (List Case) := do
   let c0 := mkConc "C11-corpus-0" "corpus/where-err-genericset" 8 3 (.ints 400)
     [.whereErr 7 3, .whereMod 7 3, .count]
@@ -140,7 +154,7 @@ def corpus : Gen (List Case) := do
   let x0 : Case := { id := "C11-corpus-6", cls := "KF-import-cross-wait", kind := "impx",
                      stratum := "corpus/import-cross-wait", model := "hang:2", spec := "returned",
                      payload := ["C11-corpus-6"] }
-  pure [c0, c1, c2, c3, i0, i1, x0]
+  pure (firstUse ++ [c0, c1, c2, c3, i0, i1, x0])
 
 def gen (seed n : Nat) (thorough : Bool) : List Case := Id.run do
   let (cs, _) := corpus.run (seedOf seed 1100000)
